@@ -255,22 +255,21 @@ def bay_desc(rng, curved=None, mmax=6, nstiff=(0, 2), kinds=('blade1d', 'blade2d
     d['cuts'] = cuts
     ns = int(rng.integers(nstiff[0], nstiff[1] + 1))
     st = []
-    edges = [0.0] + cuts + [b]
+    if ns and not cuts:
+        cuts = [float(rng.uniform(0.2 * b, 0.8 * b))]
+        d['cuts'] = cuts
     for _ in range(ns):
         kind = str(rng.choice(list(kinds)))
-        ys = float(rng.choice(edges))
+        if kind == 'blade1d' and rng.random() < 0.3:
+            ys = float(rng.choice([0.0, b]))
+        else:
+            ys = float(rng.choice(cuts))
         s = {'kind': kind, 'ys': ys}
-        bb = b * float(rng.uniform(0.05, 0.2))
-        # keep the base inside the bay
-        if ys - bb / 2 < 0 or ys + bb / 2 > b:
-            if kind != 'blade1d':
-                ys = float(rng.choice(cuts)) if cuts else None
-                if ys is None or ys - bb / 2 < 0 or ys + bb / 2 > b:
-                    continue
-                s['ys'] = ys
+        room = 2 * min(ys, b - ys)
+        bb = float(min(b * rng.uniform(0.05, 0.2), 0.9 * room)) if room > 0 else b * 0.05
         fs, fp, fm = simple_lam(rng, t / 2, 3)
         s.update(bf=b * float(rng.uniform(0.03, 0.15)), fstack=fs, fplyt=fp, flaminaprop=list(fm))
-        if kind == 't2d' or rng.random() < 0.5:
+        if kind == 't2d' or (rng.random() < 0.5 and room > 0):
             bs, bp, bm = simple_lam(rng, t / 3, 3)
             s.update(bb=bb, bstack=bs, bplyt=bp, blaminaprop=list(bm))
         if kind in ('blade2d', 't2d'):
